@@ -350,12 +350,12 @@ func genTV(t *rapid.T, label string) TV {
 	case "float64":
 		// k/8 with |k| < 2^43, or an integer up to 2^53
 		if rapid.Bool().Draw(t, label+".frac") {
-			k := rapid.Int64Range(-(1 << 20), 1<<20).Draw(t, label+".k")
+			k := rapid.Int64Range(-(1<<20), 1<<20).Draw(t, label+".k")
 			return TV{ty, strconv.FormatFloat(float64(k)/8, 'f', -1, 64)}
 		}
 		return TV{ty, strconv.FormatInt(rapid.Int64Range(-two53, two53).Draw(t, label+".i"), 10)}
 	case "float32":
-		k := rapid.Int64Range(-(1 << 12), 1<<12).Draw(t, label+".k")
+		k := rapid.Int64Range(-(1<<12), 1<<12).Draw(t, label+".k")
 		return TV{ty, strconv.FormatFloat(float64(k)/4, 'f', -1, 32)}
 	}
 	lo, hi, _ := c15Range(ty)
